@@ -314,6 +314,26 @@ fn run_pipeline(sink: &mut Sink, rng: &mut Rng, args: &Args, ndicts: usize, ntex
             }
             rows.push(f.join(","));
         }
+        // prefix chains in a class that may not begin a word everywhere (ASCII letters continue a run; U+30A1 is NOOOVBOW):
+        // a shorter word may end where no word may begin while a longer one ends on a legal boundary -- the longer one is
+        // still a candidate
+        for w in ["ap", "app", "apple", "applepie", "ア", "アァ", "アァイ"] {
+            let src = rows[*rng.pick(&indexed[..])].clone();
+            let mut f: Vec<String> = src.split(',').map(|s| s.to_string()).collect();
+            f[0] = w.to_string();
+            f[4] = w.to_string();
+            f[1] = format!("{}", rng.below(usize::min(nl, nr) as u64));
+            f[2] = format!("{}", rng.below(usize::min(nl, nr) as u64));
+            f[3] = format!("{}", rng.range(-3000, 6000));
+            f[11] = w.to_string();
+            f[12] = w.to_string();
+            for k in [13usize, 15, 16, 17] {
+                f[k] = "*".into();
+            }
+            f[14] = "A".into();
+            surfaces.push(w.to_string());
+            rows.push(f.join(","));
+        }
         let lex_csv = rows.join("\n");
         // in half of the dictionaries: a user dictionary on top (its words are candidates like any other;
         // the lexicon is asked for the parameters of every dictionary node below)
@@ -349,6 +369,9 @@ fn run_pipeline(sink: &mut Sink, rng: &mut Rng, args: &Args, ndicts: usize, ntex
         // the word parameters every out-of-vocabulary candidate may carry: the configured templates, as written in the
         // configuration (left id, right id, cost) -- not as found in the lattice
         let mut templates: Vec<(u16, u16, i16)> = vec![(oov_l as u16, oov_r as u16, oov_c as i16)];
+        // templates of the MeCab provider per category, as written in unk.def: whatever span the provider offers for a
+        // category, it offers with EVERY template of that category
+        let mut by_cat: Vec<Vec<(u16, u16, i16)>> = vec![];
         let mut providers = vec![];
         if rng.chance(1, 2) {
             // MeCab provider in front of the fallback: unk.def written here, one or two lines per category of the
@@ -364,13 +387,16 @@ fn run_pipeline(sink: &mut Sink, rng: &mut Rng, args: &Args, ndicts: usize, ntex
                 if name.is_empty() {
                     continue;
                 }
-                for _ in 0..1 + rng.below(2) {
+                let mut cat = vec![];
+                for _ in 0..1 + rng.below(3) {
                     let l = rng.below(lim);
                     let r = (l + 1 + rng.below(lim - 1)) % lim;
                     let c = rng.range(-1500, 15000);
                     unk.push_str(&format!("{},{},{},{},名詞,普通名詞,一般,*,*,*\n", name, l, r, c));
                     templates.push((l as u16, r as u16, c as i16));
+                    cat.push((l as u16, r as u16, c as i16));
                 }
+                by_cat.push(cat);
             }
             std::fs::create_dir_all(&dir).unwrap();
             std::fs::write(dir.join("unk.def"), unk).unwrap();
@@ -500,6 +526,15 @@ fn run_pipeline(sink: &mut Sink, rng: &mut Rng, args: &Args, ndicts: usize, ntex
                     let (l, r, c) = dict.lexicon().get_word_param(wid);
                     if (l as u16, r as u16, c) != (n.left_id, n.right_id, n.cost) && fail.is_none() {
                         fail = Some(format!("node for word {:?} carries ({},{},{}) but the lexicon says ({},{},{})", wid, n.left_id, n.right_id, n.cost, l, r, c));
+                    }
+                } else if fail.is_none() && templates.contains(&(n.left_id, n.right_id, n.cost)) {
+                    let p = (n.left_id, n.right_id, n.cost);
+                    let cats: Vec<&Vec<(u16, u16, i16)>> = by_cat.iter().filter(|c| c.contains(&p)).collect();
+                    if !cats.is_empty() && p != templates[0] {
+                        let complete = cats.iter().any(|c| c.iter().all(|q| all.iter().any(|x| x.2.begin == n.begin && x.2.end == n.end && (x.2.left_id, x.2.right_id, x.2.cost) == *q)));
+                        if !complete {
+                            fail = Some(format!("out-of-vocabulary candidate {}..{} is offered with template {:?} but not with every unk.def line of its category {:?}", n.begin, n.end, p, cats[0]));
+                        }
                     }
                 } else if !templates.contains(&(n.left_id, n.right_id, n.cost)) && fail.is_none() {
                     fail = Some(format!("out-of-vocabulary candidate {}..{} carries (left {}, right {}, cost {}) which is none of the configured templates {:?}", n.begin, n.end, n.left_id, n.right_id, n.cost, templates));
